@@ -238,21 +238,22 @@ Section WithParams.
      expired for longer than the debonding interval is removed together with
      its stake claim.  (The 2^64 overflow guard of line 236 is outside the
      range of the modelled epochs.) *)
-  Fixpoint ins_node (n : node) (l : list node) : list node :=
-    match l with
-    | [] => [n]
-    | m :: r => if n_id n <=? n_id m then n :: l else m :: ins_node n r
-    end.
-  Definition sorted_nodes (s : state) : list node :=
-    fold_right ins_node [] (map snd (s_nodes s)).
+  Definition sorted_ids (s : state) : list N := nsort (map fst (s_nodes s)).
 
-  Definition epoch_one (e : N) (s : state) (n : node) : state :=
-    if (n_exp n <? e) && (n_exp n + debond <? e) then
-      let s := remove_node n s in
-      with_claims s (pdel (n_ent n, n_id n + 1) (s_claims s))
-    else s.
+  (* The loop body looks the record up again by id: in a key-value store ids
+     are unique, so this is the snapshot record unless an earlier iteration
+     removed it. *)
+  Definition epoch_one (e : N) (s : state) (id : N) : state :=
+    match aget id (s_nodes s) with
+    | Some n =>
+        if (n_exp n <? e) && (n_exp n + debond <? e) then    (* registry.go:214, 240 *)
+          let s := remove_node n s in
+          with_claims s (pdel (n_ent n, n_id n + 1) (s_claims s))   (* registry.go:250 *)
+        else s
+    | None => s
+    end.
   Definition epoch_change (e : N) (s : state) : state :=
-    fold_left (epoch_one e) (sorted_nodes s) (with_epoch s e).
+    fold_left (epoch_one e) (sorted_ids s) (with_epoch s e).
 
   Definition step (s : state) (o : op) : code * state :=
     match o with
@@ -309,7 +310,7 @@ Section WithParams.
   Definition b2n (b : bool) : N := if b then 1 else 0.
 
   Definition observe (keys ents : list N) (s : state) : list (list N) :=
-    map node_row (sorted_nodes s) ++
+    flat_map (fun id => match aget id (s_nodes s) with Some n => [node_row n] | None => [] end) (sorted_ids s) ++
     [map (fun k => optid (node_by_subkey s k)) keys] ++
     [map (fun k => optid (node_by_addr s (addr k))) keys] ++
     map (entity_nodes_row s) ents ++
